@@ -368,7 +368,7 @@ def public_matches_secret(k, secret):
 
 
 # --- reference key generation from supplied octets (for foreign keys) ---------
-def gen_key(kind, created, seed_octets):
+def gen_key(kind, created, seed_octets, kdf=None):
     """kind in ed25519, cv25519, p256, p384, p521, secp256k1, ecdh_p256..., returns (pub_body, alg, secret dict)."""
     if kind == 'ed25519':
         priv = ed25519.Ed25519PrivateKey.from_private_bytes(seed_octets[:32])
@@ -382,7 +382,7 @@ def gen_key(kind, created, seed_octets):
         raw[31] |= 64
         priv = x25519.X25519PrivateKey.from_private_bytes(bytes(raw))
         pt = b'\x40' + priv.public_key().public_bytes(serialization.Encoding.Raw, serialization.PublicFormat.Raw)
-        body = build_pub_body(created, ECDH, oid=algo.CURVE_OIDS['cv25519'], point=pt, kdf=(8, 7))
+        body = build_pub_body(created, ECDH, oid=algo.CURVE_OIDS['cv25519'], point=pt, kdf=tuple(kdf) if kdf else (8, 7))
         return body, ECDH, {'s': int.from_bytes(bytes(raw)[::-1], 'big')}
     ecdh = kind.startswith('ecdh_')
     cname = kind[5:] if ecdh else kind
@@ -392,7 +392,7 @@ def gen_key(kind, created, seed_octets):
     priv = ec.derive_private_key(d, crv)
     pt = priv.public_key().public_bytes(serialization.Encoding.X962, serialization.PublicFormat.UncompressedPoint)
     if ecdh:
-        kdf = {'p256': (8, 7), 'p384': (9, 8), 'p521': (10, 9), 'secp256k1': (8, 7)}[cname]
+        kdf = tuple(kdf) if kdf else {'p256': (8, 7), 'p384': (9, 8), 'p521': (10, 9), 'secp256k1': (8, 7)}[cname]
         return build_pub_body(created, ECDH, oid=algo.CURVE_OIDS[cname], point=pt, kdf=kdf), ECDH, {'s': d}
     return build_pub_body(created, ECDSA, oid=algo.CURVE_OIDS[cname], point=pt), ECDSA, {'s': d}
 
